@@ -246,6 +246,9 @@ func TestVerifAuthRecord(t *testing.T) {
 		now := 0
 		server.VerifHook = func(name string, a ...interface{}) {
 			e := map[string]interface{}{"ev": name, "c": rev[a[0].(string)], "now": now}
+			if _, known := rev[a[0].(string)]; !known {
+				e["identity"] = a[0].(string) // not the address of any client of the driver: reported as it is
+			}
 			switch name {
 			case "AuthCheck":
 				e["locked"] = a[1].(bool)
